@@ -630,6 +630,243 @@ func FuzzC16(f *testing.F) {
 }
 
 // =============================================================================================
+// C15: writer histories
+
+func record15W(c Case15W, info Info15W) {
+	st := vstat.For("C15")
+	var h uint64
+	if info.NonTrivial() {
+		h = c.Hash()
+	}
+	st.Case(info.NonTrivial(), h, func() any { return c }, info.Classes()...)
+	st.AddExtra("writer_history_items", int64(info.Items))
+}
+
+var allDsts = []string{DBuf, DPlain, DFrame, DYield}
+
+// TestC15WritersExhaustive: every list of up to 3 (thorough 4) steps over a small item alphabet x every destination,
+// one ObjectsWriter, the four destination kinds.
+func TestC15WritersExhaustive(t *testing.T) {
+	st := vstat.For("C15")
+	shard, shards := vstat.Shard()
+	items := []Item{
+		{K: KString, D: "6162"}, {K: KString, D: "ff00"}, {K: KString}, bytesItem(KString, 300, 5, false),
+		{K: KBytes, D: "010203"}, bytesItem(KBytes, 244, 6, false), bytesItem(KBytes, 300, 7, false),
+		{K: KVar, U: 300}, {K: KU32, U: 0x01020304},
+	}
+	var alpha []WStep
+	for _, it := range items {
+		for d := range allDsts {
+			alpha = append(alpha, WStep{Item: it, Dst: d})
+		}
+	}
+	depth := vstat.Pick(3, 4)
+	n := enum.Lists(len(alpha), depth, shard, shards, func(ix []int) {
+		seq := make([]WStep, len(ix))
+		for i, k := range ix {
+			seq[i] = alpha[k]
+		}
+		c := Case15W{Dsts: allDsts, Seqs: [][]WStep{seq}}
+		info, v := Run15W(c)
+		st.Report(t, "TestC15WritersExhaustive", c, v)
+		record15W(c, info)
+	})
+	st.SetExhaustive("writer_histories", map[string]any{"step_alphabet": len(alpha), "depth": depth, "lists": n, "shards": shards})
+}
+
+func genSmallItem(t *rapid.T) Item {
+	switch k := rapid.IntRange(0, 9).Draw(t, "kind"); {
+	case k <= 2:
+		kind := []string{KByte, KU16, KU32, KU64, KVar}[rapid.IntRange(0, 4).Draw(t, "numKind")]
+		return Item{K: kind, U: genNumeric(t, 64)}
+	default:
+		kind := KBytes
+		if k >= 6 {
+			kind = KString
+		}
+		var n int
+		switch rapid.IntRange(0, 5).Draw(t, "lenClass") {
+		case 0:
+			n = rapid.IntRange(0, 3).Draw(t, "len")
+		case 1:
+			n = rapid.IntRange(240, 260).Draw(t, "len")
+		case 2:
+			n = rapid.IntRange(120, 132).Draw(t, "len")
+		case 3:
+			n = rapid.IntRange(0, 2000).Draw(t, "len")
+		default:
+			n = rapid.IntRange(1, 64).Draw(t, "len")
+		}
+		head := rapid.SliceOfN(rapid.Byte(), 0, min(n, 12)).Draw(t, "head")
+		return Item{K: kind, L: n, D: hex.EncodeToString(head), Seed: rapid.Uint64().Draw(t, "seed")}
+	}
+}
+
+func genCase15W(t *rapid.T, minG, maxG int) Case15W {
+	nd := rapid.IntRange(1, 4).Draw(t, "dsts")
+	c := Case15W{}
+	for i := 0; i < nd; i++ {
+		c.Dsts = append(c.Dsts, rapid.SampledFrom(allDsts).Draw(t, "dstKind"))
+	}
+	g := rapid.IntRange(minG, maxG).Draw(t, "goroutines")
+	for i := 0; i < g; i++ {
+		n := rapid.IntRange(1, 12).Draw(t, "steps")
+		seq := make([]WStep, n)
+		for j := range seq {
+			seq[j] = WStep{Item: genSmallItem(t), Dst: rapid.IntRange(0, nd-1).Draw(t, "dst")}
+		}
+		c.Seqs = append(c.Seqs, seq)
+	}
+	if g > 1 {
+		c.P1 = rapid.IntRange(0, 3).Draw(t, "gomaxprocs1") == 0
+	}
+	return c
+}
+
+func TestC15RapidWriters(t *testing.T) {
+	st := vstat.For("C15")
+	rapid.Check(t, func(t *rapid.T) {
+		c := genCase15W(t, 1, 1)
+		info, v := Run15W(c)
+		st.Report(t, "TestC15RapidWriters", c, v)
+		record15W(c, info)
+	})
+}
+
+// TestC15RapidWritersConcurrent: 2..4 goroutines, each with its own ObjectsWriter and destinations (run with -race in the thorough tier).
+func TestC15RapidWritersConcurrent(t *testing.T) {
+	st := vstat.For("C15")
+	rapid.Check(t, func(t *rapid.T) {
+		c := genCase15W(t, 2, 4)
+		info, v := Run15W(c)
+		st.Report(t, "TestC15RapidWritersConcurrent", c, v)
+		record15W(c, info)
+	})
+}
+
+// =============================================================================================
+// C16: buffer-reuse histories
+
+func record16H(c Case16H, info Info16H) {
+	var h uint64
+	if info.NonTrivial() {
+		h = c.Hash()
+	}
+	vstat.For("C16").Case(info.NonTrivial(), h, func() any { return c }, info.Classes()...)
+}
+
+// TestC16HistoryExhaustive: every history of 2..3 (thorough 4) rounds over a small alphabet of inputs.
+func TestC16HistoryExhaustive(t *testing.T) {
+	st := vstat.For("C16")
+	shard, shards := vstat.Shard()
+	alpha := []string{"", "00", "0161", "0162", "026162", "026261", "03616263", "0a30313233343536373839", "0a39383736353433323130",
+		"01610162", "01620161", "0561", "ffffffffffffffffff01", "8000", "02ffff"}
+	// streams: one buffer is refilled 12 / 24 times with a new record of the same shape (a value of L bytes that is
+	// different every round; or a 4-byte key that repeats in runs of three followed by such a value)
+	streams := int64(0)
+	if shard == 0 {
+		for _, rounds := range []int{12, 24} {
+			for _, withKey := range []bool{false, true} {
+				for _, L := range []int{1, 2, 3, 9, 63, 64, 65, 127, 128} {
+					c := Case16H{}
+					for r := 0; r < rounds; r++ {
+						var in []byte
+						if withKey {
+							in = append(PutUvarint(in, 4, 0), 'k', 'e', 'y', byte('0'+(r/3)%10))
+						}
+						in = PutUvarint(in, uint64(L), 0)
+						for j := 0; j < L; j++ {
+							in = append(in, byte('a'+(r+j)%26))
+						}
+						c.Ins = append(c.Ins, hex.EncodeToString(in))
+					}
+					info, v := Run16H(c)
+					if v != nil {
+						st.Report(t, "TestC16HistoryExhaustive", c, v)
+					}
+					record16H(c, info)
+					streams++
+				}
+			}
+		}
+	}
+	depth := vstat.Pick(3, 4)
+	n := enum.Lists(len(alpha), depth, shard, shards, func(ix []int) {
+		if len(ix) < 2 {
+			return // one round is a one-shot input: the other units' domain
+		}
+		c := Case16H{}
+		for _, k := range ix {
+			c.Ins = append(c.Ins, alpha[k])
+		}
+		info, v := Run16H(c)
+		if v != nil {
+			st.Report(t, "TestC16HistoryExhaustive", c, v)
+		}
+		record16H(c, info)
+	})
+	st.SetExhaustive("buffer_reuse_histories", map[string]any{"input_alphabet": len(alpha), "depth": depth, "lists": n, "streams_of_12_and_24_rounds": streams, "shards": shards})
+}
+
+// genHistory: 2..5 (sometimes 6..16) rounds. A round is the encoding of 1..3 length-prefixed items - with the lengths of the previous
+// round and new content (so the offsets coincide), or with new lengths - or a grammar / mutated input.
+func genHistory(t *rapid.T) Case16H {
+	rounds := rapid.IntRange(2, 5).Draw(t, "rounds")
+	if rapid.IntRange(0, 9).Draw(t, "long") == 7 {
+		rounds = rapid.IntRange(6, 16).Draw(t, "rounds")
+	}
+	var lens []int
+	newShape := func() {
+		k := rapid.IntRange(1, 3).Draw(t, "items")
+		lens = lens[:0]
+		for i := 0; i < k; i++ {
+			if rapid.IntRange(0, 4).Draw(t, "lenClass") == 0 {
+				lens = append(lens, rapid.IntRange(0, 200).Draw(t, "len"))
+			} else {
+				lens = append(lens, rapid.IntRange(1, 64).Draw(t, "len"))
+			}
+		}
+	}
+	newShape()
+	c := Case16H{}
+	for r := 0; r < rounds; r++ {
+		var in []byte
+		switch m := rapid.IntRange(0, 9).Draw(t, "round"); {
+		case m == 8:
+			in = genGrammar(t)
+		case m == 9:
+			in = genMutated(t)
+		default:
+			if m >= 6 {
+				newShape()
+			}
+			for _, n := range lens {
+				in = PutUvarint(in, uint64(n), 0)
+				if rapid.Bool().Draw(t, "smallAlphabet") {
+					in = append(in, rapid.SliceOfN(rapid.SampledFrom([]byte{'a', 'b'}), n, n).Draw(t, "content")...)
+				} else {
+					in = append(in, rapid.SliceOfN(rapid.Byte(), n, n).Draw(t, "content")...)
+				}
+			}
+		}
+		c.Ins = append(c.Ins, hex.EncodeToString(in))
+	}
+	return c
+}
+
+func TestC16RapidHistory(t *testing.T) {
+	st := vstat.For("C16")
+	rapid.Check(t, func(t *rapid.T) {
+		c := genHistory(t)
+		info, v := Run16H(c)
+		if v != nil {
+			st.Report(t, "TestC16RapidHistory", c, v)
+		}
+		record16H(c, info)
+	})
+}
+
+// =============================================================================================
 
 // TestReplay re-runs one saved case; the envelope's test name tells which case type it holds.
 func TestReplay(t *testing.T) {
@@ -642,6 +879,22 @@ func TestReplay(t *testing.T) {
 		t.Fatalf("cannot load %s: %v", p, err)
 	}
 	switch {
+	case strings.Contains(env.Test, "Writers"):
+		var c Case15W
+		if _, err := vstat.LoadReplay(p, &c); err != nil {
+			t.Fatalf("cannot load %s: %v", p, err)
+		}
+		info, v := Run15W(c)
+		vstat.For("C15").Report(t, "TestReplay", c, v)
+		record15W(c, info)
+	case strings.Contains(env.Test, "History"):
+		var c Case16H
+		if _, err := vstat.LoadReplay(p, &c); err != nil {
+			t.Fatalf("cannot load %s: %v", p, err)
+		}
+		info, v := Run16H(c)
+		vstat.For("C16").Report(t, "TestReplay", c, v)
+		record16H(c, info)
 	case strings.Contains(env.Test, "C15") || env.Property == "C15":
 		var c Case15
 		if _, err := vstat.LoadReplay(p, &c); err != nil {
